@@ -351,23 +351,25 @@ Theorem filter_prune_transparent evs f p cur B :
   drop_prune_obs evs (snd (frun f p evs)) = snd (frun f p (no_fprunes evs)).
 Proof. intros G. apply filter_prune_transparent_rel. apply frel_refl. exact G. Qed.
 
-(* a new filter with limiters built by from_quota is good at every time *)
-Lemma new_filter_good B cur en r ban mn mb tq nq iq pt pn pi mt mnn mi :
-  from_quota pt mt = Some tq ->
-  (nq = None \/ exists l, nq = Some l /\ from_quota pn mnn = Some l) ->
-  (iq = None \/ exists l, iq = Some l /\ from_quota pi mi = Some l) ->
-  r = {| init_time := init_time r; total_rl := tq; node_rl := nq; ip_rl := iq |} ->
-  (B - init_time r) + pt + pt < U64 -> (B - init_time r) + pn + pn < U64 -> (B - init_time r) + pi + pi < U64 ->
-  fgood B cur (new_filter en (Some r) ban mn mb).
+(* the hypotheses on a non-trivial history: quotas 3 per 1000 ns per IP, 2 per 1000 ns per node,
+   100 per 1000 ns in total; prunes between the datagrams; the fourth datagram of IP 9 is refused
+   (and bans the IP) with and without the prunes *)
+Example filter_prune_transparent_example :
+  exists iq nq tq,
+    from_quota 1000 3 = Some iq /\ from_quota 1000 2 = Some nq /\ from_quota 1000 100 = Some tq /\
+    let r := {| init_time := 10; total_rl := tq; node_rl := Some nq; ip_rl := Some iq |} in
+    let f := new_filter true (Some r) (Some 5000) None None in
+    let evs := [(FInbound false 9 (Some (Some 5)), 50); (FPruneLimiter, 55); (FInitial 9, 60);
+                (FPruneLimiter, 2000); (FInbound false 9 (Some (Some 5)), 2000); (FInitial 9, 2000);
+                (FInitial 9, 2000); (FPruneLimiter, 2001); (FInitial 9, 2001); (FInitial 8, 2002)] in
+    fgood 3000 50 f /\ mono_ev 50 evs /\ Forall (fun x => snd x <= 3000) evs /\
+    snd (frun f empty_pbl (no_fprunes evs))
+    = [OFate Deliver; OBool true; OFate Deliver; OBool true; OBool true; OBool false; OBool true].
 Proof.
-  intros Ht Hn Hi Er Bt Bn Bi. unfold fgood, new_filter. cbn [rate]. rewrite Er. cbn [init_time total_rl node_rl ip_rl].
-  destruct (from_quota_spec _ _ _ Ht) as (Et & _).
-  destruct (fresh_limiter_ok pt mt tq (cur - init_time r) Ht) as [W I].
-  split; [split; [exact W|split; [exact I|rewrite Et; exact Bt]]|]. split.
-  - destruct Hn as [->|(l & -> & Hl)]; cbn [olgood]; [exact Logic.I|].
-    destruct (from_quota_spec _ _ _ Hl) as (El & _). destruct (fresh_limiter_ok pn mnn l (cur - init_time r) Hl) as [W1 I1].
-    split; [exact W1|split; [exact I1|rewrite El; exact Bn]].
-  - destruct Hi as [->|(l & -> & Hl)]; cbn [olgood]; [exact Logic.I|].
-    destruct (from_quota_spec _ _ _ Hl) as (El & _). destruct (fresh_limiter_ok pi mi l (cur - init_time r) Hl) as [W1 I1].
-    split; [exact W1|split; [exact I1|rewrite El; exact Bi]].
+  do 3 eexists. split; [reflexivity|]. split; [reflexivity|]. split; [reflexivity|]. cbv zeta.
+  split; [|split; [cbn; lia|split; [repeat constructor; cbn; lia|vm_compute; reflexivity]]].
+  unfold fgood, new_filter. cbn [rate init_time total_rl node_rl ip_rl olgood].
+  assert (G : forall t_ tt_, 2990 + t_ + t_ < U64 -> lgood 2990 40 {| tau := t_; tt := tt_; tats := [] |}).
+  { intros t_ tt_ H. split; [constructor|]. split; [intro k; exact I|exact H]. }
+  repeat split; apply G; vm_compute; reflexivity.
 Qed.
